@@ -157,3 +157,19 @@ CLAIMED["C11"] = dict(
   note=("Trusted: as C07/C01. Partial: the statement for all numbers below 1000 in every segment is validated by sweep + correspondence, the theorems fix the "
         "numbers (0, 7, 12, 99, 999) and quantify over the whole spelling grammar."),
   design="§6 C11")
+
+CLAIMED["C14"] = dict(
+  technique="Lean 4 proof: strict-partial-order laws of the group order by induction over the declaration from lawful member orders (Std.TransOrd keys); hash agreement of equal Serial/Version objects for all objects; CPython max/min loop theorem",
+  text=("Theorems: C14_obj_order - for every member class and every pair of objects, <, == and the total_ordering-derived > are the comparisons of the values; "
+        "C14_serial_hash / C14_version_hash - for EVERY pair of Serial / Version objects, however spelled, a == b implies both feed the same thing to hash "
+        "(defect repaired in /repo: the hash was taken from the spelled text); C14_group_product / _irrefl / _asymm / _trans / _converse - for every "
+        "declaration whose members have lawful value orders and all group objects, a<b is the strict product order, irreflexive, asymmetric, transitive, and "
+        "a>b iff b<a; C14_lawful_serial / _datetime / _naming / _version / _storage - the value orders of the five formatters are lawful (N; lexicographic "
+        "on the date-time fields; lexicographic on the word list; the C07 key order on versions whose key exists; integral Decimals); C14_max / C14_min / "
+        "C14_max_perm - CPython's max/min loop returns the dominating/dominated element whatever its position, so every permutation gives the same answer; "
+        "kernel-evaluated instances for spellings of equal values (hash included) for all five formatters and for a concrete group declaration. sorted() "
+        "(timsort) and 'groups of different shapes are not comparable' are decided by the sweep; hash agreement of Datetime/Naming/Storage across all "
+        "spellings by sweep + correspondence (obj.cmp compares <, ==, > and hash agreement of parsed pairs with the model)."),
+  note=("Trusted: as C07/C01; HashSrc abstracts hash(): equal sources give equal hashes. Partial: sorted(); hash of Datetime/Naming/Storage for all objects; "
+        "comparison of groups of different shapes (NotImplemented protocol) are validated, not proved."),
+  design="§6 C14")
